@@ -442,7 +442,7 @@ func afMin(a, b int) int {
 //@ func (af *AdaptationField) stuffingEnd() int
 //@   props C02 C03
 //@   requires af != nil
-//@   ensures result == afMin(afEnd(af), 187)
+//@   ensures result == afMin(afEnd(af), 188)
 //@   modifies nothing
 
 //@ func (af *AdaptationField) setLength(length int)
@@ -460,12 +460,12 @@ func afMin(a, b int) int {
 //@ func (af *AdaptationField) stuffAF()
 //@   props C02 C03
 //@   requires af != nil
-//@   ensures afStuffed(af, old(afContentEnd(af)), old(afMin(afEnd(af), 187)))
-//@   ensures afSameOutside(af, old(*af), old(afContentEnd(af)), old(afMin(afEnd(af), 187)))
-//@   ensures forall j in 0..188 :: af[j] == afStuffedByte(old(*af), old(afContentEnd(af)), old(afMin(afEnd(af), 187)), j)
+//@   ensures afStuffed(af, old(afContentEnd(af)), old(afMin(afEnd(af), 188)))
+//@   ensures afSameOutside(af, old(*af), old(afContentEnd(af)), old(afMin(afEnd(af), 188)))
+//@   ensures forall j in 0..188 :: af[j] == afStuffedByte(old(*af), old(afContentEnd(af)), old(afMin(afEnd(af), 188)), j)
 //@   modifies *af
 //@   loop 1 (i int)
-//@     invariant 6 <= pre(i) && pre(i) <= i && (i <= old(afMin(afEnd(af), 187)) || i == pre(i)) && pre(i) == old(afContentEnd(af))
+//@     invariant 6 <= pre(i) && pre(i) <= i && (i <= old(afMin(afEnd(af), 188)) || i == pre(i)) && pre(i) == old(afContentEnd(af))
 //@     invariant af[4] == old(af[4])
 //@     invariant afStuffed(af, pre(i), i)
 //@     invariant afSameOutside(af, old(*af), pre(i), i)
@@ -513,8 +513,8 @@ func afShrunkByte(old AdaptationField, start, ce, n, j int) byte {
 }
 
 // afResized: the post-state of resizeAF as one function of the pre-state.
-func afResizedByte(old AdaptationField, start, ce, e187, delta, j int) byte {
-	if delta > 0 && e187 >= ce+delta {
+func afResizedByte(old AdaptationField, start, ce, eClamp, delta, j int) byte {
+	if delta > 0 && eClamp >= ce+delta {
 		return afGrownByte(old, start, ce, delta, j)
 	}
 	if delta < 0 {
@@ -540,10 +540,10 @@ func afSame(af *AdaptationField, old AdaptationField) bool {
 //@   paths
 //@   requires af != nil && 6 <= start && start <= afContentEnd(af) && afContentEnd(af) <= 188
 //@   requires -256 <= delta && delta <= 1<<41 && (delta < 0 ==> start-delta <= afContentEnd(af))
-//@   ensures delta > 0 && old(afMin(afEnd(af), 187)) < old(afContentEnd(af))+delta ==> result == gots.ErrAdaptationFieldCannotGrow
-//@   ensures delta > 0 && old(afMin(afEnd(af), 187)) >= old(afContentEnd(af))+delta ==> result == nil
+//@   ensures delta > 0 && old(afMin(afEnd(af), 188)) < old(afContentEnd(af))+delta ==> result == gots.ErrAdaptationFieldCannotGrow
+//@   ensures delta > 0 && old(afMin(afEnd(af), 188)) >= old(afContentEnd(af))+delta ==> result == nil
 //@   ensures delta <= 0 ==> result == nil
-//@   ensures forall j in 0..188 :: af[j] == afResizedByte(old(*af), start, old(afContentEnd(af)), old(afMin(afEnd(af), 187)), delta, j)
+//@   ensures forall j in 0..188 :: af[j] == afResizedByte(old(*af), start, old(afContentEnd(af)), old(afMin(afEnd(af), 188)), delta, j)
 //@   modifies *af
 //@   loop 1 (i int, end int, endRight int)
 //@     invariant end <= i && i <= endRight && endRight <= 188 && 6 <= end
@@ -748,17 +748,311 @@ func afToggleByte(old AdaptationField, on bool, m byte, at, n, j int) byte {
 	return afShrunkByte(old, at, ce, n, j)
 }
 
+// afValid: what the library's setters and getters demand: flagged and non-empty.
+func afValid(af *AdaptationField) bool { return af[3]&0x20 != 0 && af[4] != 0 }
+
+// afSetBitByte: byte j after setting/clearing mask m of byte at.
+func afSetBitByte(old AdaptationField, at int, m byte, v bool, j int) byte {
+	if j == at {
+		if v {
+			return old[j] | m
+		}
+		return old[j] &^ m
+	}
+	return old[j]
+}
+
+// specPCRAt: the 42 value bits of a PCR/OPCR field at offset at: base*300 + extension.
+func specPCRAt(af *AdaptationField, at int) uint64 {
+	base := uint64(af[at])*33554432 + uint64(af[at+1])*131072 + uint64(af[at+2])*512 + uint64(af[at+3])*2 + uint64(af[at+4])/128
+	ext := uint64(af[at+4]%2)*256 + uint64(af[at+5])
+	return base*300 + ext
+}
+
+// afFieldEnd(old, m): end of the optional field with presence flag m (its start plus its size).
+func afFits(old AdaptationField, grow int) bool { return afContentEnd(&old)+grow <= afEnd(&old) }
+
+// ---- flag-only setters and their getters
+
+//@ func (af *AdaptationField) SetDiscontinuity(value bool) error
+//@   props C03
+//@   requires af != nil
+//@   ensures old(afValid(af)) ==> result == nil
+//@   ensures !old(afValid(af)) ==> result != nil && afSame(af, old(*af))
+//@   ensures old(afValid(af)) ==> forall j in 0..188 :: af[j] == afSetBitByte(old(*af), 5, 0x80, value, j)
+//@   ensures old(afCanonical(af)) ==> afCanonical(af)
+//@   modifies af[5..6]
+
+//@ func (af *AdaptationField) Discontinuity() (v bool, err error)
+//@   props C03
+//@   requires af != nil
+//@   ensures afValid(af) ==> err == nil && v == (af[5]/128 == 1)
+//@   ensures !afValid(af) ==> err != nil && !v
+//@   modifies nothing
+
+//@ func (af *AdaptationField) SetRandomAccess(value bool) error
+//@   props C03
+//@   requires af != nil
+//@   ensures old(afValid(af)) ==> result == nil
+//@   ensures !old(afValid(af)) ==> result != nil && afSame(af, old(*af))
+//@   ensures old(afValid(af)) ==> forall j in 0..188 :: af[j] == afSetBitByte(old(*af), 5, 0x40, value, j)
+//@   ensures old(afCanonical(af)) ==> afCanonical(af)
+//@   modifies af[5..6]
+
+//@ func (af *AdaptationField) RandomAccess() (v bool, err error)
+//@   props C03
+//@   requires af != nil
+//@   ensures afValid(af) ==> err == nil && v == ((af[5]/64)%2 == 1)
+//@   ensures !afValid(af) ==> err != nil && !v
+//@   modifies nothing
+
+//@ func (af *AdaptationField) SetElementaryStreamPriority(value bool) error
+//@   props C03
+//@   requires af != nil
+//@   ensures old(afValid(af)) ==> result == nil
+//@   ensures !old(afValid(af)) ==> result != nil && afSame(af, old(*af))
+//@   ensures old(afValid(af)) ==> forall j in 0..188 :: af[j] == afSetBitByte(old(*af), 5, 0x20, value, j)
+//@   ensures old(afCanonical(af)) ==> afCanonical(af)
+//@   modifies af[5..6]
+
+//@ func (af *AdaptationField) ElementaryStreamPriority() (v bool, err error)
+//@   props C03
+//@   requires af != nil
+//@   ensures afValid(af) ==> err == nil && v == ((af[5]/32)%2 == 1)
+//@   ensures !afValid(af) ==> err != nil && !v
+//@   modifies nothing
+
+// ---- presence toggles of the fixed-size fields (PCR 6 bytes, OPCR 6 bytes, splice countdown 1 byte)
+
 //@ func (af *AdaptationField) SetHasPCR(value bool) error
 //@   props C03
 //@   paths
 //@   cases af[5] bits 0x1f
 //@   requires af != nil && afCanonical(af)
 //@   ensures value == old(afFlag(af, 0x10)) ==> result == nil && afSame(af, old(*af))
-//@   ensures value && !old(afFlag(af, 0x10)) && old(afContentEnd(af))+6 > old(afEnd(af)) ==> result != nil && afSame(af, old(*af))
-//@   ensures value && !old(afFlag(af, 0x10)) && old(afContentEnd(af))+6 <= old(afEnd(af)) ==> result == nil
+//@   ensures value && !old(afFlag(af, 0x10)) && !afFits(old(*af), 6) ==> result != nil && afSame(af, old(*af))
+//@   ensures value && !old(afFlag(af, 0x10)) && afFits(old(*af), 6) ==> result == nil
 //@   ensures !value && old(afFlag(af, 0x10)) ==> result == nil
 //@   ensures value != old(afFlag(af, 0x10)) && result == nil ==> forall j in 0..188 :: af[j] == afToggleByte(old(*af), value, 0x10, 6, 6, j)
 //@   ensures result == nil ==> afCanonical(af)
 //@   modifies *af
+
+//@ func (af *AdaptationField) HasPCR() (v bool, err error)
+//@   props C03
+//@   requires af != nil
+//@   ensures afValid(af) ==> err == nil && v == afFlag(af, 0x10)
+//@   ensures !afValid(af) ==> err != nil && !v
+//@   modifies nothing
+
+//@ func (af *AdaptationField) SetHasOPCR(value bool) error
+//@   props C03
+//@   paths
+//@   cases af[5] bits 0x1f
+//@   requires af != nil && afCanonical(af)
+//@   ensures value == old(afFlag(af, 0x08)) ==> result == nil && afSame(af, old(*af))
+//@   ensures value && !old(afFlag(af, 0x08)) && !afFits(old(*af), 6) ==> result != nil && afSame(af, old(*af))
+//@   ensures value && !old(afFlag(af, 0x08)) && afFits(old(*af), 6) ==> result == nil
+//@   ensures !value && old(afFlag(af, 0x08)) ==> result == nil
+//@   ensures value != old(afFlag(af, 0x08)) && result == nil ==> forall j in 0..188 :: af[j] == afToggleByte(old(*af), value, 0x08, old(afOPCRStart(af)), 6, j)
+//@   ensures result == nil ==> afCanonical(af)
+//@   modifies *af
+
+//@ func (af *AdaptationField) HasOPCR() (v bool, err error)
+//@   props C03
+//@   requires af != nil
+//@   ensures afValid(af) ==> err == nil && v == afFlag(af, 0x08)
+//@   ensures !afValid(af) ==> err != nil && !v
+//@   modifies nothing
+
+//@ func (af *AdaptationField) SetHasSplicingPoint(value bool) error
+//@   props C03
+//@   paths
+//@   cases af[5] bits 0x1f
+//@   requires af != nil && afCanonical(af)
+//@   ensures value == old(afFlag(af, 0x04)) ==> result == nil && afSame(af, old(*af))
+//@   ensures value && !old(afFlag(af, 0x04)) && !afFits(old(*af), 1) ==> result != nil && afSame(af, old(*af))
+//@   ensures value && !old(afFlag(af, 0x04)) && afFits(old(*af), 1) ==> result == nil
+//@   ensures !value && old(afFlag(af, 0x04)) ==> result == nil
+//@   ensures value != old(afFlag(af, 0x04)) && result == nil ==> forall j in 0..188 :: af[j] == afToggleByte(old(*af), value, 0x04, old(afSpliceStart(af)), 1, j)
+//@   ensures result == nil ==> afCanonical(af)
+//@   modifies *af
+
+//@ func (af *AdaptationField) HasSplicingPoint() (v bool, err error)
+//@   props C03
+//@   requires af != nil
+//@   ensures afValid(af) ==> err == nil && v == afFlag(af, 0x04)
+//@   ensures !afValid(af) ==> err != nil && !v
+//@   modifies nothing
+
+// ---- values of the fixed-size fields
+
+//@ func (af *AdaptationField) SetPCR(PCR uint64) error
+//@   props C03 C04
+//@   requires af != nil && afCanonical(af)
+//@   ensures !old(afFlag(af, 0x10)) ==> result == gots.ErrNoPCR && afSame(af, old(*af))
+//@   ensures old(afFlag(af, 0x10)) ==> result == nil && afSameOutside(af, old(*af), 6, 12) && af[10]&0x7e == 0x7e
+//@   ensures old(afFlag(af, 0x10)) && PCR < 8589934592*300 ==> specPCRAt(af, 6) == PCR
+//@   ensures afCanonical(af)
+//@   modifies af[6..12]
+
+//@ func (af *AdaptationField) PCR() (v uint64, err error)
+//@   props C03 C04
+//@   requires af != nil && afCanonical(af)
+//@   ensures afFlag(af, 0x10) ==> err == nil && v == specPCRAt(af, 6)
+//@   ensures !afFlag(af, 0x10) ==> err == gots.ErrNoPCR && v == 0
+//@   modifies nothing
+
+//@ func (af *AdaptationField) SetOPCR(PCR uint64) error
+//@   props C03 C04
+//@   requires af != nil && afCanonical(af)
+//@   ensures !old(afFlag(af, 0x08)) ==> result == gots.ErrNoOPCR && afSame(af, old(*af))
+//@   ensures old(afFlag(af, 0x08)) ==> result == nil && afSameOutside(af, old(*af), old(afOPCRStart(af)), old(afOPCRStart(af))+6)
+//@   ensures old(afFlag(af, 0x08)) && PCR < 8589934592*300 ==> specPCRAt(af, afOPCRStart(af)) == PCR
+//@   ensures afCanonical(af)
+//@   modifies *af
+
+//@ func (af *AdaptationField) OPCR() (v uint64, err error)
+//@   props C03 C04
+//@   requires af != nil && afCanonical(af)
+//@   ensures afFlag(af, 0x08) ==> err == nil && v == specPCRAt(af, afOPCRStart(af))
+//@   ensures !afFlag(af, 0x08) ==> err == gots.ErrNoOPCR && v == 0
+//@   modifies nothing
+
+//@ func (af *AdaptationField) SetSpliceCountdown(value byte) error
+//@   props C03
+//@   requires af != nil && afCanonical(af)
+//@   ensures !old(afFlag(af, 0x04)) ==> result == gots.ErrNoSplicePoint && afSame(af, old(*af))
+//@   ensures old(afFlag(af, 0x04)) ==> result == nil && af[afSpliceStart(af)] == value && afSameOutside(af, old(*af), old(afSpliceStart(af)), old(afSpliceStart(af))+1)
+//@   ensures afCanonical(af)
+//@   modifies *af
+
+//@ func (af *AdaptationField) SpliceCountdown() (v int, err error)
+//@   props C03
+//@   requires af != nil && afCanonical(af)
+//@   ensures afFlag(af, 0x04) ==> err == nil && v == int(int8(af[afSpliceStart(af)]))
+//@   ensures !afFlag(af, 0x04) ==> err == gots.ErrNoSplicePoint && v == 0
+//@   modifies nothing
+
+// ---- variable-size fields: transport_private_data (flag 0x02) and extension (flag 0x01)
+
+// afVarOffByte: byte j after removing the length-prefixed field at [at, at+1+n).
+func afVarOffByte(old AdaptationField, m byte, at, n, j int) byte {
+	if j == 5 {
+		return old[5] &^ m
+	}
+	return afShrunkByte(old, at, afContentEnd(&old), 1+n, j)
+}
+
+// afVarOnByte: byte j after inserting an empty length-prefixed field (length byte 0) at at.
+func afVarOnByte(old AdaptationField, m byte, at, j int) byte {
+	if j == 5 {
+		return old[5] | m
+	}
+	if j == at {
+		return 0
+	}
+	return afGrownByte(old, at, afContentEnd(&old), 1, j)
+}
+
+// afVarSetByte: byte j after replacing the n data bytes of the field at at by data.
+func afVarSetByte(old AdaptationField, at, n int, data []byte, j int) byte {
+	ce := afContentEnd(&old)
+	k := len(data)
+	if j == at {
+		return byte(k)
+	}
+	if at+1 <= j && j < at+1+k {
+		return data[j-at-1]
+	}
+	if at+1+k <= j && j < ce+k-n {
+		return old[j-k+n]
+	}
+	if ce+k-n <= j && j < ce {
+		return 0xff
+	}
+	return old[j]
+}
+
+//@ func (af *AdaptationField) SetHasTransportPrivateData(value bool) error
+//@   props C03
+//@   paths
+//@   cases af[5] bits 0x1f
+//@   requires af != nil && afCanonical(af)
+//@   ensures value == old(afFlag(af, 0x02)) ==> result == nil && afSame(af, old(*af))
+//@   ensures value && !old(afFlag(af, 0x02)) && !afFits(old(*af), 1) ==> result != nil && afSame(af, old(*af))
+//@   ensures value && !old(afFlag(af, 0x02)) && afFits(old(*af), 1) ==> result == nil
+//@   ensures value && !old(afFlag(af, 0x02)) && result == nil ==> forall j in 0..188 :: af[j] == afVarOnByte(old(*af), 0x02, old(afTPDStart(af)), j)
+//@   ensures !value && old(afFlag(af, 0x02)) ==> result == nil
+//@   ensures !value && old(afFlag(af, 0x02)) ==> forall j in 0..188 :: af[j] == afVarOffByte(old(*af), 0x02, old(afTPDStart(af)), old(afTPDLen(af))-1, j)
+//@   ensures result == nil ==> afCanonical(af)
+//@   modifies *af
+
+//@ func (af *AdaptationField) HasTransportPrivateData() (v bool, err error)
+//@   props C03
+//@   requires af != nil
+//@   ensures afValid(af) ==> err == nil && v == afFlag(af, 0x02)
+//@   ensures !afValid(af) ==> err != nil && !v
+//@   modifies nothing
+
+//@ func (af *AdaptationField) SetTransportPrivateData(data []byte) error
+//@   props C03
+//@   paths
+//@   cases af[5] bits 0x1f
+//@   requires af != nil && afCanonical(af) && verifSeparate(af, data)
+//@   ensures !old(afFlag(af, 0x02)) ==> result == gots.ErrNoPrivateTransportData && afSame(af, old(*af))
+//@   ensures old(afFlag(af, 0x02)) && !afFits(old(*af), len(data)-(old(afTPDLen(af))-1)) ==> result != nil && afSame(af, old(*af))
+//@   ensures old(afFlag(af, 0x02)) && afFits(old(*af), len(data)-(old(afTPDLen(af))-1)) ==> result == nil
+//@   ensures old(afFlag(af, 0x02)) && result == nil ==> forall j in 0..188 :: af[j] == afVarSetByte(old(*af), old(afTPDStart(af)), old(afTPDLen(af))-1, data, j)
+//@   ensures result == nil ==> afCanonical(af)
+//@   modifies *af
+
+//@ func (af *AdaptationField) TransportPrivateData() (data []byte, err error)
+//@   props C03
+//@   requires af != nil && afCanonical(af)
+//@   ensures !afFlag(af, 0x02) ==> data == nil && err == gots.ErrNoPrivateTransportData
+//@   ensures afFlag(af, 0x02) ==> err == nil && len(data) == afTPDLen(af)-1
+//@   ensures afFlag(af, 0x02) && afTPDLen(af) > 1 ==> &data[0] == &af[afTPDStart(af)+1]
+//@   modifies nothing
+
+//@ func (af *AdaptationField) SetHasAdaptationFieldExtension(value bool) error
+//@   props C03
+//@   paths
+//@   cases af[5] bits 0x1f
+//@   requires af != nil && afCanonical(af)
+//@   ensures value == old(afFlag(af, 0x01)) ==> result == nil && afSame(af, old(*af))
+//@   ensures value && !old(afFlag(af, 0x01)) && !afFits(old(*af), 1) ==> result != nil && afSame(af, old(*af))
+//@   ensures value && !old(afFlag(af, 0x01)) && afFits(old(*af), 1) ==> result == nil
+//@   ensures value && !old(afFlag(af, 0x01)) && result == nil ==> forall j in 0..188 :: af[j] == afVarOnByte(old(*af), 0x01, old(afExtStart(af)), j)
+//@   ensures !value && old(afFlag(af, 0x01)) ==> result == nil
+//@   ensures !value && old(afFlag(af, 0x01)) ==> forall j in 0..188 :: af[j] == afVarOffByte(old(*af), 0x01, old(afExtStart(af)), old(afExtLen(af))-1, j)
+//@   ensures result == nil ==> afCanonical(af)
+//@   modifies *af
+
+//@ func (af *AdaptationField) HasAdaptationFieldExtension() (v bool, err error)
+//@   props C03
+//@   requires af != nil
+//@   ensures afValid(af) ==> err == nil && v == afFlag(af, 0x01)
+//@   ensures !afValid(af) ==> err != nil && !v
+//@   modifies nothing
+
+//@ func (af *AdaptationField) SetAdaptationFieldExtension(data []byte) error
+//@   props C03
+//@   paths
+//@   cases af[5] bits 0x1f
+//@   requires af != nil && afCanonical(af) && verifSeparate(af, data)
+//@   ensures !old(afFlag(af, 0x01)) ==> result == gots.ErrNoAdaptationFieldExtension && afSame(af, old(*af))
+//@   ensures old(afFlag(af, 0x01)) && !afFits(old(*af), len(data)-(old(afExtLen(af))-1)) ==> result != nil && afSame(af, old(*af))
+//@   ensures old(afFlag(af, 0x01)) && afFits(old(*af), len(data)-(old(afExtLen(af))-1)) ==> result == nil
+//@   ensures old(afFlag(af, 0x01)) && result == nil ==> forall j in 0..188 :: af[j] == afVarSetByte(old(*af), old(afExtStart(af)), old(afExtLen(af))-1, data, j)
+//@   ensures result == nil ==> afCanonical(af)
+//@   modifies *af
+
+//@ func (af *AdaptationField) AdaptationFieldExtension() (data []byte, err error)
+//@   props C03
+//@   requires af != nil && afCanonical(af)
+//@   ensures !afFlag(af, 0x01) ==> data == nil && err == gots.ErrNoAdaptationFieldExtension
+//@   ensures afFlag(af, 0x01) ==> err == nil && len(data) == afExtLen(af)-1
+//@   ensures afFlag(af, 0x01) && afExtLen(af) > 1 ==> &data[0] == &af[afExtStart(af)+1]
+//@   modifies nothing
 
 var _ = gots.ErrNoPayload
